@@ -51,6 +51,14 @@ WITNESSES = {
                  exprs=[("dataset", 1)],
                  ops=[("evaluate", 0, False, False, {A: 1, P: 1}), ("evaluate", 0, False, False, {A: 1})]),
         fails_at=1),
+    # the effects switch is consulted by every Computation and is part of no fingerprint
+    "D24": dict(
+        what="@dataset(effects=[<raises>]) d(a=Option('A')): {'A':1,'LABREA':{'EFFECTS':{'DISABLED':True}}} -> value stored (effect skipped), then {'A':1} -> the stored value is served although the uncached evaluation fails in the effect",
+        scn=dict(ftable={100: ("tag",), 101: ("raise", 3)},
+                 env={1: dict(fid=100, kwargs=[opt(K(A))], effects=[("fnvalue", 101)])},
+                 exprs=[("dataset", 1)],
+                 ops=[("evaluate", 0, False, False, {A: 1, 1: {5: {3: True}}}), ("evaluate", 0, False, False, {A: 1})]),
+        fails_at=1),
     # a cached lazily evaluated iterable: the cache keeps the generator object, exhausted by its first consumer
     "D21": dict(
         what="cached(Map(Option('A'), {'B': [1, 2]})) on {'A':0}: first evaluation yields two pairs, the second (cache hit) yields [] (the stored generator is exhausted)",
